@@ -277,6 +277,36 @@ class Body:
     def callee_names(self):
         return [callee_name(t) for _, t in self.all_calls()]
 
+    def callable_refs(self):
+        """keys of crate-local functions and closures this body mentions as VALUES (`opt.map_or(d, helper)`, `.then(|| ..)`):
+        they run when a combinator or the body itself calls them"""
+        if hasattr(self, '_crefs'):
+            return self._crefs
+        out = []
+
+        def op(o):
+            if isinstance(o, dict) and o.get('k') == 'const' and o.get('fn') and o['fn'].get('local'):
+                out.append(o['fn']['path'])
+
+        for b in self.normal_blocks():
+            blk = self.blocks[b]
+            for s in blk['stmts']:
+                if s['k'] != 'assign':
+                    continue
+                rv = s['rv']
+                if rv['k'] == 'agg' and rv.get('ak') == 'closure':
+                    out.append(rv.get('name'))
+                for key in ('o', 'a', 'b'):
+                    op(rv.get(key))
+                for f in rv.get('fields', []) or []:
+                    op(f)
+            t = blk['term']
+            if t['k'] == 'call':
+                for a in t['args']:
+                    op(a)
+        self._crefs = [x for x in out if x]
+        return self._crefs
+
     # ---------------- path enumeration ----------------
     def paths(self, k=1):
         if k in self._paths:
@@ -391,13 +421,19 @@ ATOMIC_FUNCS = {
 MAX_INLINE_DEPTH = 3
 
 
+HANDLE_NAMES = ('Sender', 'Receiver', 'AsyncSender', 'AsyncReceiver')
+
+
 def inlinable(body):
     """may a call to this crate-local function be spliced into the caller's paths?"""
     j = body.j
     if j.get('def_kind') not in ('Fn', 'AssocFn'):
         return False
     if j.get('impl_trait'):
-        return False
+        # trait methods are entry points of their own, except the handles' Clone impls, which other members of the clone
+        # family may be written in terms of (`clone_async` = `self.clone().to_async()`)
+        if not (canon(str(j.get('impl_trait'))).endswith('Clone') and any(body.key.startswith('<%s<T> as ' % h) for h in HANDLE_NAMES)):
+            return False
     if canon(body.key) in ATOMIC_FUNCS:
         return False
     return True
@@ -410,6 +446,46 @@ def private_helper(body):
 
 class TooManyPaths(Exception):
     pass
+
+
+OPT = 'std::option::Option'
+RES = 'std::result::Result'
+OPT_VARIANTS = (('None', '0'), ('Some', '1'))
+RES_VARIANTS = (('Ok', '0'), ('Err', '1'))
+
+
+def wrap_value(w, rv):
+    if w == 'Some':
+        return ('agg', OPT, 'Some', (rv,), ())
+    if w in ('Ok', 'Err'):
+        return ('agg', RES, w, (rv,), ())
+    return rv
+
+
+# higher-order combinators written instead of `match`: name -> (kind of receiver, {variant: action})
+# actions: ('f', i, wrap)  call argument i with the payload, wrap the result;  ('f0', i, wrap) call argument i with no
+# argument;  ('pay', wrap) the payload itself (wrapped);  ('arg', i) argument i as it is;  ('same',) the receiver unchanged;
+# ('none',) Option::None;  ('bool', b)
+COMBINATORS = {
+    OPT + '::map': ('opt', {'Some': ('f', 1, 'Some'), 'None': ('none',)}),
+    OPT + '::and_then': ('opt', {'Some': ('f', 1, None), 'None': ('none',)}),
+    OPT + '::map_or': ('opt', {'Some': ('f', 2, None), 'None': ('arg', 1)}),
+    OPT + '::map_or_else': ('opt', {'Some': ('f', 2, None), 'None': ('f0', 1, None)}),
+    OPT + '::unwrap_or_else': ('opt', {'Some': ('pay', None), 'None': ('f0', 1, None)}),
+    OPT + '::unwrap_or': ('opt', {'Some': ('pay', None), 'None': ('arg', 1)}),
+    OPT + '::ok_or_else': ('opt', {'Some': ('pay', 'Ok'), 'None': ('f0', 1, 'Err')}),
+    OPT + '::is_some_and': ('opt', {'Some': ('f', 1, None), 'None': ('bool', False)}),
+    OPT + '::or_else': ('opt', {'Some': ('same',), 'None': ('f0', 1, None)}),
+    RES + '::map': ('res', {'Ok': ('f', 1, 'Ok'), 'Err': ('same',)}),
+    RES + '::map_err': ('res', {'Ok': ('same',), 'Err': ('f', 1, 'Err')}),
+    RES + '::and_then': ('res', {'Ok': ('f', 1, None), 'Err': ('same',)}),
+    RES + '::unwrap_or_else': ('res', {'Ok': ('pay', None), 'Err': ('f', 1, None)}),
+    RES + '::map_or': ('res', {'Ok': ('f', 2, None), 'Err': ('arg', 1)}),
+    RES + '::map_or_else': ('res', {'Ok': ('f', 2, None), 'Err': ('f', 1, None)}),
+    RES + '::ok': ('res', {'Ok': ('pay', 'Some'), 'Err': ('none',)}),
+    RES + '::is_ok': ('res', {'Ok': ('bool', True), 'Err': ('bool', False)}),
+    RES + '::is_err': ('res', {'Ok': ('bool', False), 'Err': ('bool', True)}),
+}
 
 
 class Evaluator:
@@ -615,7 +691,18 @@ class Evaluator:
                 return ('const', 'bool', '0' if a[2] == '1' else '1')
             return ('un', rv['op'], a)
         if k == 'cast':
-            return ('cast', rv['ck'], self.operand(st, rv['o']), rv['ty'])
+            o_ = self.operand(st, rv['o'])
+            if rv['ck'] == 'Transmute' and o_[0] == 'agg' and o_[1] in HANDLE_NAMES and rv['ty'].split('<')[0] in HANDLE_NAMES:
+                # flavour conversion of a handle value that is known on this path (a constructor written as
+                # `bounded(n)` + `to_async()`): the same single-field struct under the other name (layout: rule L4)
+                return ('agg', rv['ty'].split('<')[0], rv['ty'].split('<')[0] if o_[2] == o_[1] else o_[2], o_[3], o_[4])
+            if rv['ck'] == 'Transmute' and st.depth > 0 and rv['ty'].startswith('&'):
+                import re as _re
+                tgt = _re.sub(r"^&('[a-z_0-9]+ )?", '', rv['ty'])
+                if tgt.split('<')[0] in HANDLE_NAMES:
+                    # `self.as_sync()` spliced into a caller: the same handle seen through the other flavour's type
+                    return o_
+            return ('cast', rv['ck'], o_, rv['ty'])
         if k == 'agg':
             fields = tuple(self.operand(st, f) for f in rv['fields'])
             if rv['ak'] == 'adt':
@@ -663,7 +750,7 @@ class Evaluator:
 
     # ----- stepping -----
     def inline_target(self, st, fn):
-        if not fn or not fn.get('local') or st.depth >= MAX_INLINE_DEPTH:
+        if not fn or not (fn.get('local') or fn.get('resolved_local')) or st.depth >= MAX_INLINE_DEPTH:
             return None
         facts = self.body.facts
         cand = facts.bodies.get(fn['path'])
@@ -712,8 +799,8 @@ class Evaluator:
                 st.body = fr['body']
                 st.visits = fr['visits']
                 st.depth = d - 1
-                if fr.get('wrap') == 'Some':
-                    rv = ('agg', 'std::option::Option', 'Some', (rv,), ())
+                if fr.get('wrap'):
+                    rv = wrap_value(fr['wrap'], rv)
                 self.assign(st, fr['dest'], rv, t.get('at'), fr['bb'])
                 b = fr['target']
                 continue
@@ -767,6 +854,9 @@ class Evaluator:
                             clo_args = (args[0],) + tuple(args[1][3])
                 if callee is not None and clo_args is not None:
                     args = clo_args
+                if name in COMBINATORS and args and t.get('target') is not None and st.depth < MAX_INLINE_DEPTH \
+                        and self.combinator(st, name, args, t, b, work):
+                    return
                 if name == 'std::ops::Try::branch' and t.get('target') is not None:
                     x = try_operand(('call', 0, name, args))
                     if x is not None and x[0] == 'agg' and x[2] in ('Some', 'Ok', 'None', 'Err'):
@@ -941,8 +1031,39 @@ class Evaluator:
                 for i, (val, tb, lab, outc) in enumerate(nexts):
                     s2 = st if i == len(nexts) - 1 else st.clone()
                     todo.append((val, tb, lab, outc, s2))
+                # `both0` is the conjunction rc0 && sc0: present it to the rules as the two tests it stands for
+                exp = []
+                skipbr = set()
                 for val, tb, lab, outc, s2 in todo:
-                    if label_it:
+                    if label_it and lab == 'both0':
+                        inner = d
+                        while inner[0] in ('un',):
+                            inner = inner[2]
+                        orv = inner[2] if inner[0] == 'bin' and inner[2][0] == 'bin' else (inner[3] if inner[0] == 'bin' else None)
+                        la, lb_ = (orv[2], orv[3]) if orv is not None else (d, d)
+                        if ci_field_load(la) == 'send_count':
+                            la, lb_ = lb_, la
+                        def vbr(s_, lab_, o_, v_):
+                            s_.events.append(Event('br', idx=len(s_.events), label=lab_, outcome=o_, val=v_, at=t.get('at'), bb=b, taken=(val, listed)))
+                        if outc == 'T':
+                            vbr(s2, 'rc0', 'T', la)
+                            vbr(s2, 'sc0', 'T', lb_)
+                            skipbr.add(id(s2))
+                            exp.append((val, tb, None, None, s2))
+                        else:
+                            s3 = s2.clone()
+                            vbr(s2, 'rc0', 'F', la)
+                            exp.append((val, tb, None, None, s2))
+                            vbr(s3, 'rc0', 'T', la)
+                            vbr(s3, 'sc0', 'F', lb_)
+                            skipbr.add(id(s2))
+                            skipbr.add(id(s3))
+                            exp.append((val, tb, None, None, s3))
+                    else:
+                        exp.append((val, tb, lab, outc, s2))
+                todo = exp
+                for val, tb, lab, outc, s2 in todo:
+                    if label_it and lab is not None:
                         try:
                             if val is not None:
                                 s2.decided[dkey] = ('eq', val)
@@ -953,7 +1074,7 @@ class Evaluator:
                                     s2.decided[dkey] = ('ne', ex)
                         except TypeError:
                             pass
-                    if label_it:
+                    if label_it and id(s2) not in skipbr:
                         s2.events.append(Event('br', idx=len(s2.events), label=lab, outcome=outc, val=d,
                                                at=t.get('at'), bb=b, taken=(val, listed)))
                         if lab in PURE_PREDS:
@@ -968,6 +1089,101 @@ class Evaluator:
             # unknown terminator
             st.events.append(Event('otherterm', idx=len(st.events), val=t.get('dbg'), bb=b))
             return
+
+    def callable_body(self, st, f):
+        """(body, leading args) of a closure value or function item defined in this crate, else None"""
+        cv = f
+        if cv[0] in ('ref', 'rawptr') and len(cv) > 2 and cv[2] is not None:
+            cv = cv[2]
+        facts = self.body.facts
+        cb = None
+        lead = ()
+        if cv[0] == 'agg' and cv[1] == 'closure':
+            cb = facts.bodies.get(cv[2])
+            lead = (f,)
+        elif cv[0] == 'fnptr':
+            for k_, b_ in facts.bodies.items():
+                if canon(k_) == cv[1] and inlinable(b_):
+                    cb = b_
+                    break
+        if cb is None:
+            return None
+        cur = st.body or self.body
+        if cb is cur or cb is self.body or any(fr['body'] is cb for fr in st.stack):
+            return None
+        return cb, lead
+
+    def combinator(self, st, name, args, t, b, work):
+        """`x.map_or(d, f)` and friends: fork on the variant of x exactly like the `match` they abbreviate and splice
+        the closure / function item on the branch that calls it.  Returns False when the receiver is not understood."""
+        kind, acts = COMBINATORS[name]
+        recv = args[0]
+        # only worth (and only safe for the rules that read the opaque call form) when a closure / function of this crate
+        # is involved
+        if not any(a[0] in ('f', 'f0') and len(args) > a[1] and self.callable_body(st, args[a[1]]) is not None for a in acts.values()):
+            return False
+        variants = OPT_VARIANTS if kind == 'opt' else RES_VARIANTS
+        adt = OPT if kind == 'opt' else RES
+        if recv[0] == 'agg' and recv[2] in acts:
+            branches = [(recv[2], None)]
+        else:
+            d = ('discr', recv, variants)
+            branches = []
+            listed = [vv for _, vv in variants]
+            for vn, vv in variants:
+                lab, outc = classify(d, vv, listed)
+                branches.append((vn, (lab, outc, d, vv, listed)))
+        todo = []
+        for i, (vn, br) in enumerate(branches):
+            s2 = st if i == len(branches) - 1 else st.clone()
+            if br is not None:
+                lab, outc, d, vv, listed = br
+                if lab in PURE_PREDS and lab in s2.pure and s2.pure[lab] != outc:
+                    continue
+                s2.events.append(Event('br', idx=len(s2.events), label=lab, outcome=outc, val=d, at=t.get('at'), bb=b, taken=(vv, listed)))
+            if recv[0] == 'agg':
+                pay = recv[3][0] if recv[3] else ('agg', 'tuple', '', (), ())
+            else:
+                pay = ('field', ('downcast', recv, vn), '0')
+            a = acts[vn]
+            if a[0] in ('f', 'f0'):
+                f = args[a[1]] if len(args) > a[1] else None
+                if f is None:
+                    return False
+                fargs = (pay,) if a[0] == 'f' else ()
+                cbl = self.callable_body(s2, f)
+                if cbl is not None:
+                    cb, lead = cbl
+                    s2.events.append(Event('inline', idx=len(s2.events), name=cb.key, args=lead + fargs, at=t.get('at'), bb=b, fn=None))
+                    s2.stack.append({'body': s2.body, 'visits': s2.visits, 'dest': t['dest'], 'target': t['target'], 'bb': b, 'wrap': a[2]})
+                    s2.depth += 1
+                    s2.body = cb
+                    s2.visits = {}
+                    for j, av in enumerate(lead + fargs):
+                        s2.env[(j + 1, s2.depth)] = av
+                    todo.append((0, s2))
+                    continue
+                cid = s2.counter
+                s2.counter += 1
+                fname = f[1] if f[0] == 'fnptr' else '<indirect>'
+                res = ('call', cid, fname, fargs if f[0] == 'fnptr' else (f,) + fargs)
+                s2.events.append(Event('call', idx=len(s2.events), name=fname, args=res[3], val=res, at=t.get('at'), bb=b, fn=None, extra={'exp': None, 'cid': cid}))
+                val = wrap_value(a[2], res)
+            elif a[0] == 'pay':
+                val = wrap_value(a[1], pay)
+            elif a[0] == 'arg':
+                val = args[a[1]]
+            elif a[0] == 'same':
+                val = recv
+            elif a[0] == 'none':
+                val = ('agg', OPT, 'None', (), ())
+            else:
+                val = ('const', 'bool', '1' if a[1] else '0')
+            self.assign(s2, t['dest'], val, t.get('at'), b)
+            todo.append((t['target'], s2))
+        for item in todo:
+            work.append(item)
+        return True
 
     def imm_norm(self, v, depth=0):
         """key under which a branch decision is remembered: loads of never-written fields lose their time stamp"""
@@ -1122,6 +1338,10 @@ def classify_bool_expr(d):
         swap = {'Lt': 'Gt', 'Gt': 'Lt', 'Le': 'Ge', 'Ge': 'Le', 'Eq': 'Eq', 'Ne': 'Ne'}
         if op in swap and a[0] == 'const' and b[0] != 'const':
             a, b, op = b, a, swap[op]
+        if a[0] == 'bin' and a[1] in ('BitOr', 'Add', 'AddUnchecked') and is_const(b, 0) and op in ('Eq', 'Ne', 'Gt', 'Le') \
+                and {ci_field_load(a[2]), ci_field_load(a[3])} == {'send_count', 'recv_count'}:
+            # `(send_count | recv_count) == 0` (or the sum of the two): both counts are zero, i.e. the channel is closed
+            return ('both0', op in ('Eq', 'Le'))
         fa = ci_field_load(a)
         if fa is None and a[0] == 'bin' and a[1] in ('Add', 'Sub') and a[3][0] == 'const':
             # the counter re-read after `count += 1` / `count -= 1` in the same critical section
@@ -1277,6 +1497,17 @@ def classify_bool_expr(d):
                     return ('late', True)
                 if now1 and lab == 'cmp_gt':
                     return ('before_deadline', True)
+            if lab in ('opt_none', 'opt_some') and d[3]:
+                # deadline.checked_duration_since(now).is_none()  <=>  now > deadline   (and the three siblings)
+                x = strip_ref_value(d[3][0])
+                if x is not None and is_call(x, 'std::time::Instant::checked_duration_since') and len(x[3]) == 2:
+                    s0 = strip_ref_value(x[3][0])
+                    s1 = strip_ref_value(x[3][1])
+                    none = lab == 'opt_none'
+                    if s1 is not None and is_call(s1, 'std::time::Instant::now'):
+                        return ('late', none)              # Some <=> deadline >= now
+                    if s0 is not None and is_call(s0, 'std::time::Instant::now'):
+                        return ('late_ge', not none)       # Some <=> now >= deadline
             if lab == 'qempty':
                 if d[3] and ci_field_ref(d[3][0]) != 'queue':
                     return ('other_is_empty', True)
